@@ -6,6 +6,12 @@ from . import core, symrun
 
 def report_infra(v, infra):
     for e in infra:
+        if e.get("crashed_single"):
+            # one call, compiled alone, dies at run time: that call is a concrete failing input
+            v.violation("crash %s %s %s" % (e["group"], e["what"], " ".join(e.get("calls", [])[:1])),
+                        {"kind": "crash", "detail": e, "note": "the translation unit containing only this call compiles and then dies at run time "
+                         "(signal / abort) on the current tree; re-run it with the flags of the group to reproduce"})
+            continue
         v.violation("harness-failure %s %s" % (e["group"], e["what"]),
                     {"kind": "harness-failure", "detail": e,
                      "note": "the harness for this configuration did not compile or crashed; the property is not shown for it"},
@@ -22,6 +28,8 @@ def run_oracle_groups(groups, wd, per_tu=40):
             continue
         if rr["rc_compile"] != 0 or rr["rc_run"] != 0:
             infra.append({"group": r["group"]["key"], "what": "compile" if rr["rc_compile"] else "run rc=%s" % rr["rc_run"],
+                          "crashed_single": bool(rr.get("crashed")), "isa": r["group"]["isa"], "std": r["group"].get("std", "c++14"),
+                          "defs": list(r["group"].get("defs", ())), "opt": r["group"].get("opt", "-O1"), "header": r["group"]["header"],
                           "calls": r["calls"][:3], "out": (rr["compile_out"][-2500:] if rr["rc_compile"] else (rr.get("out", "")[-800:] + rr.get("err", "")))})
         olines = [l for l in rr["out"].split("\n") if "|" in l]
         calls = r["calls"] if len(r["calls"]) == len(olines) else [None] * len(olines)
@@ -120,6 +128,17 @@ def standard_replay(path, sym_call_of=None):
             for r in res:
                 out = r["res"]["compile_out"][-2000:] if r["res"]["rc_compile"] else r["res"]["out"]
                 print(out); bad = bad or "FAIL" in out or r["res"]["rc_compile"] != 0
+            return 1 if bad else 0
+        if kind == "crash":
+            d = obj["detail"]
+            g = {"key": "replay", "header": d["header"], "isa": d["isa"], "defs": d.get("defs", []), "opt": d.get("opt", "-O2"),
+                 "std": d.get("std", "c++14"), "calls": d["calls"][:1]}
+            res = symrun.run_groups([g], wd)
+            bad = False
+            for r in res:
+                rr = r["res"]
+                print(rr["compile_out"][-2000:] if rr["rc_compile"] else (rr["out"] + "\nrun rc=%s %s" % (rr["rc_run"], rr.get("err", ""))))
+                bad = bad or rr["rc_compile"] != 0 or rr["rc_run"] != 0 or "FAIL" in rr["out"]
             return 1 if bad else 0
     print("replay: nothing executable in this replay file (kind=%s)" % kind)
     return 1
